@@ -907,7 +907,7 @@ class MatchTempoIndication(MatchParameter):
 
 
 def interpret_as_tempo_indication(value: str) -> MatchTempoIndication:
-    tempo_indication = MatchTempoIndication.from_string(value)
+    tempo_indication = MatchTempoIndication(value)
     return tempo_indication
 
 
